@@ -3,7 +3,7 @@
    division by zero or an out-of-range internal array index; these theorems say it never does on
    admissible inputs.  (Each also follows from the refinement theorems of C01/C02/C05/C07.) *)
 From Coq Require Import ZArith List.
-From MdspanVerif Require Import MachInt ListAux Layouts LayoutSpec LayoutProofs LayoutTheorems FlagProofs View Extents ExtentsProofs Convert ConvertProofs Submdspan SubSpec SubProofs.
+From MdspanVerif Require Import MachInt ListAux Layouts LayoutSpec LayoutProofs LayoutTheorems FlagProofs View Extents ExtentsProofs Convert ConvertProofs Submdspan SubSpec SubProofs AccessorLaw.
 Import ListNotations.
 Local Open Scope Z_scope.
 
@@ -95,3 +95,13 @@ Theorem C14_debug_check : forall (left : bool) (ts tt : ity) (es ss : list Z),
   exists b, stride_check left ts tt es ss = Ok b.
 Proof. intros. eexists. apply stride_check_thm; auto. Qed.
 Print Assumptions C14_debug_check.
+
+(* the guard of the sub-mapping offset is not an optimisation: evaluating the source mapping at the slices'
+   lower bounds unconditionally (and discarding the value when a slice is empty at the end of its extent) is
+   undefined behaviour on an admissible input, although the guarded offset is defined *)
+Theorem C14_unguarded_sub_offset_refuted :
+  exists (t : ity) (src : mapping) (sls : list slice),
+    valid t src /\ sub_kind_ok src = true /\ valid_slices sls (dims src) /\ Forall (slice_rep t) sls /\
+    (exists off, sub_offset_impl t src sls = Ok off) /\ unguarded_first t src sls = UB.
+Proof. exact unguarded_offset_refuted. Qed.
+Print Assumptions C14_unguarded_sub_offset_refuted.
